@@ -102,6 +102,22 @@ fn part_a(sc: &Sc, st: &mut Stats) {
                 let mut cur: &[u8] = &out;
                 match guarded(|| reader.read_value(&mut cur)) {
                     Ok(Ok(got)) if cur.is_empty() && from_lib(&got, &sc.s, &sc.env).is_ok_and(|g| veq(&g, v)) => {
+                        // the same message from a source that delivers 1 or 3 bytes per read
+                        let mut chunk_bad = None;
+                        for chunk in [1usize, 3] {
+                            let mut src = crate::c01::ChunkReader { data: &out, pos: 0, chunk };
+                            let r2 = guarded(|| reader.read_value(&mut src));
+                            st.transitions += 1;
+                            if !matches!(&r2, Ok(Ok(g2)) if src.pos == out.len() && from_lib(g2, &sc.s, &sc.env).is_ok_and(|g| veq(&g, v))) {
+                                chunk_bad = Some((chunk, ev::trunc(&format!("{r2:?}"), 300)));
+                                break;
+                            }
+                        }
+                        if let Some((chunk, what)) = chunk_bad {
+                            st.outcome("read-differs");
+                            st.violate(order, "generic single-object reader does not return the value from a source that delivers a few bytes per read", json!({"schema": sc.json, "value": v.short(), "message": hex(&out), "bytes_per_read": chunk, "observed": what}), replay);
+                            continue;
+                        }
                         st.outcome("ok");
                         st.class(format!("{}|{}", sc.s.shape(&sc.env, 3), out.len()));
                         st.sample(|| json!({"schema": sc.json, "value": v.short(), "message": hex(&out)}));
